@@ -230,7 +230,9 @@ class ArithFunctions(InterpreterFunctions):
         rhs: int
         (lhs, rhs) = args
         assert rhs >= 0
-        return (lhs >> rhs,)
+        assert isa(op.result.type, builtin.IndexType | builtin.IntegerType)
+        bitwidth = _int_bitwidth(interpreter, op.result.type)
+        return (to_signed(to_signed(lhs, bitwidth) >> rhs, bitwidth),)
 
     @impl(arith.DivSIOp)
     def run_divsi(
@@ -239,11 +241,15 @@ class ArithFunctions(InterpreterFunctions):
         lhs: int
         rhs: int
         (lhs, rhs) = args
+        assert isa(op.result.type, builtin.IndexType | builtin.IntegerType)
+        bitwidth = _int_bitwidth(interpreter, op.result.type)
+        lhs = to_signed(lhs, bitwidth)
+        rhs = to_signed(rhs, bitwidth)
         assert rhs != 0
         div = abs(lhs) // abs(rhs)
         if (lhs > 0) != (rhs > 0):
             div = -div
-        return (div,)
+        return (to_signed(div, bitwidth),)
 
     @impl(arith.RemSIOp)
     def run_remsi(
@@ -252,11 +258,15 @@ class ArithFunctions(InterpreterFunctions):
         lhs: int
         rhs: int
         (lhs, rhs) = args
+        assert isa(op.result.type, builtin.IndexType | builtin.IntegerType)
+        bitwidth = _int_bitwidth(interpreter, op.result.type)
+        lhs = to_signed(lhs, bitwidth)
+        rhs = to_signed(rhs, bitwidth)
         assert rhs != 0
         div = abs(lhs) // abs(rhs)
         if (lhs > 0) != (rhs > 0):
             div = -div
-        return (lhs - div * rhs,)
+        return (to_signed(lhs - div * rhs, bitwidth),)
 
     @impl(arith.FloorDivSIOp)
     def run_floordivsi(
@@ -265,8 +275,12 @@ class ArithFunctions(InterpreterFunctions):
         lhs: int
         rhs: int
         (lhs, rhs) = args
+        assert isa(op.result.type, builtin.IndexType | builtin.IntegerType)
+        bitwidth = _int_bitwidth(interpreter, op.result.type)
+        lhs = to_signed(lhs, bitwidth)
+        rhs = to_signed(rhs, bitwidth)
         assert rhs != 0
-        return (lhs // rhs,)
+        return (to_signed(lhs // rhs, bitwidth),)
 
     @impl(arith.IndexCastOp)
     def run_indexcast(
